@@ -161,15 +161,44 @@ func distances(base *big.Int, p int) []*big.Int {
 	return ds
 }
 
+// thoroughPatterns: every single-bit, all-ones-below-a-bit and two-bit pattern of 128 bits.
+func thoroughPatterns() []*big.Int {
+	var out []*big.Int
+	for i := 0; i < 128; i++ {
+		b := new(big.Int).Lsh(one, uint(i))
+		out = append(out, b, new(big.Int).Sub(b, one))
+		for j := i + 1; j < 128; j += 3 {
+			out = append(out, new(big.Int).Add(b, new(big.Int).Lsh(one, uint(j))))
+		}
+	}
+	return out
+}
+
+// thoroughDistances: 2^k-1, 2^k, 2^k+1 for every k up to 65, and the last blocks.
+func thoroughDistances(base *big.Int, p int) []*big.Int {
+	ds := distances(base, p)
+	for k := uint(0); k <= 65; k++ {
+		b := new(big.Int).Lsh(one, k)
+		ds = append(ds, new(big.Int).Sub(b, one), b, new(big.Int).Add(b, one))
+	}
+	return ds
+}
+
 func run(r *ev.Run) {
+	pats, dist := patterns(), distances
+	if !r.Quick() {
+		pats = append(pats, thoroughPatterns()...)
+		dist = thoroughDistances
+		r.Rule("thorough: base patterns extended by every single-bit, 2^k-1 and (every third) two-bit pattern of 128 bits (5 700 patterns); distances extended by 2^k-1, 2^k, 2^k+1 for k = 0..65.")
+	}
 	r.Rule("complete product: p in 0..128 x 11 base bit patterns (incl. IPv4-mapped and IPv4-compatible addresses) masked to /p x 13 block distances (0,1,2,2^8,2^32-1,2^32,2^63-1,2^63,2^64-1,2^64,2^64+1,last block,last+1) x in-block offset {0,1,size-1} x both argument orders for Offset; AddPrefixes+inverse for every distance < 2^64; plus complete windows n=0..300 around the 2^64 and 2^128 carries for p in {0,1,2,62..66,126,127,128}. Reference: math/big. Class = function/p-range/outcome.")
 	r.Assume("values outside the listed bit patterns / distances are not explored; only carry/borrow/shift shapes are exhaustive")
 	seenCase := map[string]bool{}
 	for p := 0; p <= 128; p++ {
 		size := new(big.Int).Lsh(one, uint(128-p))
-		for _, pat := range patterns() {
+		for _, pat := range pats {
 			base := maskTo(pat, p)
-			for _, d := range distances(base, p) {
+			for _, d := range dist(base, p) {
 				blk := new(big.Int).Add(base, new(big.Int).Mul(d, size))
 				key := fmt.Sprintf("%d/%x/%s", p, base, d)
 				if seenCase[key] {
